@@ -157,11 +157,21 @@ fn case_rate_and_da(t: &mut Tape, info: &mut CaseInfo) -> Result<(), String> {
     let (what, lazer_spec, legacy_d): (String, ModsSpec, Difficulty) = match which {
         0 | 1 => {
             // DT / NC with speed change r
-            let r = (t.range(101, 200) as f64) / 100.0;
+            let mut r = (t.range(101, 200) as f64) / 100.0;
             let rate_bits = if which == 0 { DT } else { NC };
-            let ms = ModsSpec { bits: base_bits | rate_bits, repr: ModRepr::Lazer, extras: vec![LazerExtra::Rate(r)] };
-            let legacy = Difficulty::new().mods(base_bits | rate_bits).clock_rate(r);
-            (format!("{}(speed_change={r})", if which == 0 { "DT" } else { "NC" }), ms, legacy)
+            // a quarter of these selections also contains HalfTime (default speed): the speed-up mod takes
+            // precedence, as for legacy mods, whatever its speed change is (drawn from 0.5..2 here)
+            let with_ht = t.chance(1, 4);
+            if with_ht {
+                r = (t.range(50, 200) as f64) / 100.0;
+            }
+            let ms = if with_ht {
+                ModsSpec { bits: base_bits | rate_bits | HT, repr: ModRepr::Lazer, extras: vec![LazerExtra::RateOf(if which == 0 { "DT" } else { "NC" }, r)] }
+            } else {
+                ModsSpec { bits: base_bits | rate_bits, repr: ModRepr::Lazer, extras: vec![LazerExtra::Rate(r)] }
+            };
+            let legacy = Difficulty::new().mods(base_bits | rate_bits | if with_ht { HT } else { 0 }).clock_rate(r);
+            (format!("{}(speed_change={r}){}", if which == 0 { "DT" } else { "NC" }, if with_ht { "+HT" } else { "" }), ms, legacy)
         }
         2 | 3 => {
             let r = (t.range(50, 99) as f64) / 100.0;
